@@ -119,7 +119,10 @@ def handleRunLoop (inp impl : Json) : Verdict :=
   let ownErr (n : String) : Bool := (tamperOf n).startsWith "err:"
   let tampered (n : String) : Bool :=
     tamperOf n != "" && !ownErr n && (n.splitOn "(grpc server impl)").length == 1
-  let fb (n : String) : Bool := tampered n && answered.contains n && !blind.contains n
+  -- requests the client finished (with a request trailer) only after it had reported a matching
+  -- result: the reference server complains while it is shutting down
+  let late := strList (field impl "late")
+  let fb (n : String) : Bool := (tampered n && answered.contains n && !blind.contains n) || late.contains n
   let markOfName (n : String) : Mark := ((codeOf n)[1]?.bind parseMark).getD .unmarked
   let right (n : String) : Bool := (codeOf n)[0]? == some 'r'
   -- the assignment, by the property's words: a selected case ran iff the client answered it
@@ -191,7 +194,7 @@ def handleRunLoop (inp impl : Json) : Verdict :=
   { agree := agree, holds := why.isEmpty, nontrivial := true,
     model := Json.mkObj [("ok", mOk), ("passed", mTot.passed), ("expected", mTot.expected), ("failedOrNotRun", mTot.failed + mTot.notRun)],
     why := why,
-    cls := (if names.any fb then "peer-feedback:" else "") ++ (if names.any ownErr then "client-error-message:" else "") ++ (if tnames.isEmpty then "" else "odd-names:") ++
+    cls := (if !late.isEmpty then "feedback-during-shutdown:" else "") ++ (if names.any fb then "peer-feedback:" else "") ++ (if names.any ownErr then "client-error-message:" else "") ++ (if tnames.isEmpty then "" else "odd-names:") ++
       stop ++ (if want then ":all-answered" else ":not-all") ++ (if iOk then ":success" else ":failure") }
 
 /-! ### op "inrun": one whole run in one process (real client runner on an in-process scripted client,
